@@ -138,7 +138,7 @@ class RefRT(object):
     def read(self, fr, name):
         f = fr
         while f is not None:
-            for n, v in reversed(f.ovs):
+            for n, v, _own in reversed(f.ovs):
                 if n == name:
                     return v
             f = f.parent
@@ -146,11 +146,15 @@ class RefRT(object):
 
     @contextlib.contextmanager
     def _ov(self, fr, name, val):
-        fr.ovs.append((name, val))
+        entry = (name, val, object())  # (its own entry: overrides may be left in another order than entered)
+        fr.ovs.append(entry)
         try:
             yield
         finally:
-            fr.ovs.pop()
+            for j in range(len(fr.ovs) - 1, -1, -1):
+                if fr.ovs[j] is entry:
+                    del fr.ovs[j]
+                    break
 
     @contextlib.contextmanager
     def _nonasync(self, fr):
